@@ -449,6 +449,12 @@ func unitC16(e common.Env, p *common.Part) {
 		} else {
 			conn, binding, err := env.rawDial(srv.addr)
 			if err != nil {
+				if e.Property == "C10" && len(conns) > 0 {
+					// earlier connections of this catalogue left their handshakes unfinished and are still open; a new client that
+					// cannot even connect (10 s, TLS handshake included) means the service to other peers has stopped
+					p.Violate("wedged/listener-after-unfinished-handshakes", fmt.Sprintf("after %d connections whose handshakes were left unfinished (still open), a new client could not connect to the service within 10 s: %v", len(conns), err), nil)
+					break
+				}
 				p.Inconcl("raw dial failed: " + err.Error())
 				continue
 			}
